@@ -27,6 +27,10 @@ func setOfflineEnv() {
 	os.Setenv("GOTOOLCHAIN", "local")
 }
 
+// noRenames: the baseline command records the current names; every other command reads the contracts modulo
+// pure renames since the baseline (rename.go).
+var noRenames bool
+
 func loadEngine(dir string) (*Engine, error) {
 	setOfflineEnv()
 	cfg := &packages.Config{Mode: packages.LoadAllSyntax, Dir: dir} // the production build (verif tag off): hooks are no-ops, the contracts file is read as text
@@ -80,6 +84,11 @@ func loadEngine(dir string) (*Engine, error) {
 		return nil, err
 	}
 	e.cs = cs
+	if !noRenames {
+		if b, err := loadBaseline(); err == nil && len(b.Symbols) > 0 {
+			e.applyRenames(b.Symbols)
+		}
+	}
 	e.indexContracts()
 	e.reset()
 	return e, nil
